@@ -22,12 +22,12 @@ class Hashmaster
   buffer64 *hashbuf;
 
 protected:
-  u32_t totalsize;
+  u64_t totalsize;
   /*
   addtotal:累加总长度
   len:长度
   */
-  void addtotal(u32_t len) { totalsize += (len << 3); };
+  void addtotal(u32_t len) { totalsize += (((u64_t)len) << 3); };
 
   virtual void getHash(const u8_t *input) = 0;
   virtual void getHash(const u8_t *input, u32_t final_loadsize) = 0;
